@@ -27,7 +27,8 @@ type gRule struct {
 	Append                                      bool
 }
 
-type gAddr struct{ Name, IP, Extra string }
+// Kind: "" = ip-netmask, else ip-range / fqdn (kinds the planner does not know by name)
+type gAddr struct{ Name, IP, Extra, Kind string }
 type gSvc struct{ Name, Proto, Port, Extra, PortExtra, ProtoExtra string }
 type gGrp struct {
 	Name    string
@@ -103,7 +104,11 @@ func (v gVsys) xml() string {
 	if len(v.Addrs) > 0 {
 		b.WriteString("<address>")
 		for _, o := range v.Addrs {
-			fmt.Fprintf(&b, `<entry name="%s"><ip-netmask>%s</ip-netmask>%s</entry>`, xmlEsc(o.Name), o.IP, o.Extra)
+			kind := o.Kind
+			if kind == "" {
+				kind = "ip-netmask"
+			}
+			fmt.Fprintf(&b, `<entry name="%s"><%s>%s</%s>%s</entry>`, xmlEsc(o.Name), kind, o.IP, kind, o.Extra)
 		}
 		b.WriteString("</address>")
 	}
@@ -176,6 +181,8 @@ func newWorld(rng *RNG) *world {
 		}
 		w.addrs = append(w.addrs, gAddr{Name: name, IP: fmt.Sprintf("10.1.1.%d/32", i)})
 	}
+	w.addrs = append(w.addrs, gAddr{Name: "RANGE_10.1.1.3-7", IP: "10.1.1.3-10.1.1.7", Kind: "ip-range"},
+		gAddr{Name: "FQDN_a.example.com", IP: "a.example.com", Kind: "fqdn"})
 	for _, p := range []string{"tcp 80", "tcp 443", "udp 123", "tcp 22", "udp 53", "tcp 8080"} {
 		f := strings.Fields(p)
 		w.svcs = append(w.svcs, gSvc{Name: p, Proto: f[0], Port: f[1]})
@@ -251,7 +258,7 @@ func (w *world) srvList(v *gVsys) []string {
 		return []string{"any"}
 	case k < 25:
 		return []string{"application-default"}
-	case k < 33 && len(v.SGroups) > 0:
+	case k < 36 && len(v.SGroups) > 0:
 		return []string{Pick(w.rng, v.SGroups).Name}
 	case k < 40:
 		return []string{w.sharedS[0]}
@@ -302,7 +309,7 @@ func (w *world) deviceVsys(name string) gVsys {
 	for i, n := 0, w.rng.Intn(5); i < n; i++ {
 		v.Groups = append(v.Groups, gGrp{Name: fmt.Sprintf("g%d", i), Members: w.pickAddrs(1, 6)})
 	}
-	if w.rng.Chance(25) {
+	if w.rng.Chance(35) {
 		v.SGroups = append(v.SGroups, gGrp{Name: "HTTP-u-HTTPS", Members: []string{"tcp 80", "tcp 443"}})
 	}
 	n := w.rng.Intn(8)
@@ -537,10 +544,41 @@ func without(l []string, drop map[string]bool) []string {
 // mutate applies one random change to the target under construction.
 func (w *world) mutate(v *gVsys) {
 	rng := w.rng
-	k := rng.Intn(32)
+	k := rng.Intn(35)
 	switch k {
 	case 30, 31:
 		w.mutateOne(v, 7)
+		return
+	case 32: // a member of a service-group gets another name, same definition
+		if len(v.SGroups) > 0 {
+			g := &v.SGroups[rng.Intn(len(v.SGroups))]
+			if len(g.Members) > 0 {
+				i := rng.Intn(len(g.Members))
+				f := strings.Fields(g.Members[i])
+				if len(f) == 2 {
+					g.Members[i] = strings.ToUpper(f[0]) + " " + f[1] + " X"
+					w.note("sgroupMemberRename")
+				}
+			}
+		}
+		return
+	case 33, 34: // new rule whose destination is a group that is also renamed / changed
+		if len(v.Groups) > 0 {
+			g := &v.Groups[rng.Intn(len(v.Groups))]
+			switch rng.Intn(3) {
+			case 0:
+				n := w.newGroupName(v)
+				replaceName(v, g.Name, n)
+				g.Name = n
+			case 1:
+				g.Members = uniq(append(g.Members, w.pickAddrs(1, 2)...))
+			}
+			r := w.rule(v, fmt.Sprintf("n%d", rng.Intn(1000)))
+			r.Dst = []string{g.Name}
+			i := rng.Intn(len(v.Rules) + 1)
+			v.Rules = append(v.Rules[:i], append([]gRule{r}, v.Rules[i:]...)...)
+			w.note("insRuleGroupDst")
+		}
 		return
 	}
 	w.mutateOne(v, k)
@@ -751,11 +789,30 @@ func (w *world) mutateOne(v *gVsys, k int) {
 	case 25: // same address name, other value / other unknown attribute
 		if len(w.addrs) > 0 {
 			i := rng.Intn(len(w.addrs))
+			if rng.Bool() {
+				// one of the kinds without ip-netmask, if the target defines it
+				for j, a := range w.addrs {
+					if a.Kind != "" && rng.Bool() {
+						for _, t := range v.Addrs {
+							if t.Name == a.Name {
+								i = j
+							}
+						}
+					}
+				}
+			}
 			for j := range v.Addrs {
 				if v.Addrs[j].Name == w.addrs[i].Name {
 					if rng.Bool() {
-						v.Addrs[j].IP = fmt.Sprintf("10.9.9.%d/32", i)
-						w.note("addrChange:ip")
+						switch v.Addrs[j].Kind {
+						case "ip-range":
+							v.Addrs[j].IP = fmt.Sprintf("10.9.9.1-10.9.9.%d", i+2)
+						case "fqdn":
+							v.Addrs[j].IP = fmt.Sprintf("b%d.example.com", i)
+						default:
+							v.Addrs[j].IP = fmt.Sprintf("10.9.9.%d/32", i)
+						}
+						w.note("addrChange:value:" + v.Addrs[j].Kind)
 					} else {
 						v.Addrs[j].Extra = "<description>new</description>"
 						w.note("addrChange:unknown")
